@@ -526,6 +526,16 @@ func selfSynchronised(t types.Type) bool {
 }
 
 // FieldAccesses collects reads/writes of fields of the tracked struct types in fn.
+// HeldAt returns the must-lockset at an instruction of fn: locks acquired in
+// fn before it plus those every caller holds.
+func (w *LockWorld) HeldAt(fn *ssa.Function, in ssa.Instruction) LockSet {
+	fl := w.Funcs[fn]
+	if fl == nil {
+		return LockSet{}
+	}
+	return union(fl.At[in], w.Must[fn])
+}
+
 func (w *LockWorld) FieldAccesses(fn *ssa.Function, tracked func(FieldRef) bool) []Access {
 	fl := w.Funcs[fn]
 	if fl == nil {
